@@ -104,8 +104,9 @@ async def _ensure_result_cols(
     columns: Sequence[AllowedColumn],
 ) -> ResultSet:
     # Which columns need to be inferred?
+    # Keyed by position: several columns may carry the same name
     remaining = {
-        col: i for i, col in enumerate(columns) if not isinstance(col, ResultColumn)
+        i: col for i, col in enumerate(columns) if not isinstance(col, ResultColumn)
     }
 
     if not remaining:
@@ -132,7 +133,7 @@ async def _ensure_result_cols(
         peeks.append(peek)
 
         inferred = []
-        for name, i in remaining.items():
+        for i, name in remaining.items():
             value = peek[i]
             if value is not None:
                 type_ = infer_type(value)
@@ -140,13 +141,13 @@ async def _ensure_result_cols(
                     name=str(name),
                     type=type_,
                 )
-                inferred.append(name)
+                inferred.append(i)
 
-        for name in inferred:
-            remaining.pop(name)
+        for i in inferred:
+            remaining.pop(i)
 
     # If we failed to find a non-null value, set the type to NULL
-    for name, i in remaining.items():
+    for i, name in remaining.items():
         columns[i] = ResultColumn(
             name=str(name),
             type=ColumnType.NULL,
